@@ -51,9 +51,12 @@ Definition print_story (acts : list bstr) : bstr :=
   | a :: tl => a ++ flat_map (fun x => c_sp :: x) tl
   end.
 
-(** A byte that may name a scene. *)
+(** A byte that may name a scene: not one of the four notation characters
+    and not (ASCII) white space. *)
+Definition white (c : byte) : bool :=
+  match c with x09 | x0a | x0b | x0c | x0d | x20 => true | _ => false end.
 Definition scene_char (c : byte) : bool :=
-  negb (Byte.eqb c c_plus || Byte.eqb c c_dot || Byte.eqb c c_us || Byte.eqb c c_sp).
+  negb (Byte.eqb c c_plus || Byte.eqb c c_dot || Byte.eqb c c_us || white c).
 
 (** Well-formed act: a non-empty sequence of `.` and defined scenes, possibly
     joined by single `+` signs that have a scene or `.` on both sides. *)
